@@ -263,6 +263,29 @@ impl StateHook for QueryHook {
                 }
             }
         }
+        // the same state as an earlier release left it: the version query reports the stored record, not the running build
+        for (def, ver) in [("ats_smart_contract", "0.18.2"), ("ats-smart-contract", "0.16.1")] {
+            let v = q("get_version_info", None);
+            if let Ok(msg) = parse_query(&v.to_string()) {
+                let mut older = st.store.clone();
+                let rec = json!({"definition": def, "version": ver});
+                older.0.insert(KEY_VERSION.to_vec(), rec.to_string().into_bytes());
+                let (after, out) = do_query(&older, &scen.cfg.chain, &msg);
+                sink.extra_execs += 1;
+                sink.c("C16/get_version_info/compared-under-an-older-stored-version");
+                let last = vec![json!({"op": "query", "msg": v, "with_stored_version_record": rec})];
+                if after != older {
+                    sink.vl("C16", "C16/query-modified-state".into(), v.to_string(), last.clone());
+                }
+                let ok = match &out {
+                    QueryOutcome::Ok(ans) => serde_json::from_slice::<Value>(ans).ok() == Some(rec.clone()),
+                    _ => false,
+                };
+                if !ok {
+                    sink.vl("C16", "C16/get_version_info/answer-differs-from-stored".into(), format!("stored {rec}, answer {out:?}"), last);
+                }
+            }
+        }
         for (kind, key) in [("get_contract_info", KEY_INFO), ("get_version_info", KEY_VERSION)] {
             let v = q(kind, None);
             if let Some(out) = run(&v, sink) {
